@@ -44,6 +44,32 @@ CLAIMED = {
             "Trusts TLC, the JDK SHA-256 behind the Native override (self-tested against vectors on every run), and the "
             "parametricity argument that long division on digit arrays is radix-independent.",
             "DESIGN.md 5/C07"),
+    "C10": ("TLA+ spec Bip39.tla (generic in group width / checksum unit / hash): TLC exhaustive on a scaled instance (MC_Bip39), "
+            "TLC-enumerated boundary families at the real parameters replayed into bits.bips.bip39 (Gen_Bip39), implementation traces "
+            "validated by TLC with real SHA-256 / PBKDF2-HMAC-SHA512 / NFKD (Trace_Bip39)",
+            "Exhaustive model check of bijection, exact accept set and 'exactly one accepted sequence per entropy-bit class' on the scaled "
+            "instance (5-bit groups, checksum ENT/4, ENT in {8,12}, toy hash), with a self-test config in which a checksum over the wrong "
+            "bits must produce TLC's counterexample; at the real parameters every TLC-enumerated row (all-zero/all-ones/single-bit "
+            "entropies, invalid lengths 0..40, the last word replaced by each of the 2048 list words, boundary and non-list substitutions "
+            "at every position, words added/removed) replayed into the code; recorded calls on random entropies, mutated mnemonics, all "
+            "2047 last-word alternatives (exactly 2^(11-CS)-1 accepted) and seeds with NFKD-needing passphrases judged by TLC; the 24 "
+            "Trezor vectors incl. the seed column are the spec self-test.",
+            "Trusts TLC, the JDK SHA-256/HMAC-SHA512 and Normalizer behind the Native overrides (self-tested on every run; passphrases use "
+            "code points assigned by Unicode 6.0), the word list pinned by its published SHA-256, and the parametricity argument that the "
+            "bit regrouping is independent of the group width.",
+            "DESIGN.md 5/C10"),
+    "C11": ("TLA+ spec Bip143.tla (zeroing rules written twice: BIP text form and code-shaped membership lists): TLC exhaustive decision "
+            "table (MC_Bip143), the same table on concrete transactions with real SHA-256 replayed into witness_message (Gen_Bip143), "
+            "implementation traces validated byte for byte by TLC (Trace_Bip143)",
+            "Exhaustive model check of the table 6 flags x idx 0..8 x n_in, n_out 1..8 (both rule formulations agree, SINGLE with idx >= "
+            "n_out zeroes hashOutputs, preimage layout and selected outpoint/sequence), with a self-test config (SINGLE without the index "
+            "bound) that must fail; all 1728 table rows emitted by TLC with the demanded preimage and replayed into the code; recorded "
+            "calls on generated transactions (1..8 inputs/outputs, every index, six flags, amounts 0..21e14, full-range versions / "
+            "sequences / locktimes, scriptCodes 1..600 bytes) recomputed by TLC and compared byte for byte; the 13 BIP143 example "
+            "preimages/digests of the repository's tests are the spec self-test.",
+            "Trusts TLC and the JDK SHA-256 behind the Native override (self-tested on every run); witness_message's scriptcode argument "
+            "is taken to be the CompactSize-prefixed scriptCode, as in the repository's own example tests.",
+            "DESIGN.md 5/C11"),
     "C16": ("TLA+ specs Send.tla (build machine, conservation clauses), Spend.tla (template-level consensus validity of an input), "
             "Sighash.tla (legacy SignatureHash and BIP143 digest) over Tx/Script/Ecdsa: TLC exhaustive on small instances (MC_Send); "
             "bounded build cases and generated configurations run through the real send_tx with a scripted UTXO source and the "
